@@ -112,6 +112,10 @@ Unary(X) ==
    \/ Valid(Inv(X)) /\ tv' = V1("inv", X, Mat(Inv(X)))
    \/ tv' = V1("ident", X, Mat(IdOf(X)))                       \* G.identity(), X*id, id*X
    \/ OffersFromMat(X) /\ tv' = V1("frommat", X, Mat(X))
+(* building a direct product with `*` is a pure construction: an existing product object that is reused
+   as the left operand of further `*` keeps its own factors, dimensions and matrix semantics
+   (history quantifier: G = A*B;  G*R2;  G*SO3Quat;  G must still be A*B)                       *)
+ProdHist(X, k) == k \in 13..16 /\ tv' = [op |-> "prodhist", a |-> <<X>>, exp |-> Mat(X), ident |-> Mat(IdOf(X))]
 Binary(X, k) == \E Y \in Families[k] :
    /\ Valid(Y) /\ Valid(Prod(X, Y))
    /\ tv' = V2("mul", X, Y, RMMul(Mat(X), Mat(Y)))
@@ -119,7 +123,7 @@ Ternary(X, k) == k <= 14 /\ X \in TriFamilies[k] /\ \E Y \in TriFamilies[k], Z \
    /\ Valid(Y) /\ Valid(Z) /\ Valid(Prod(X, Y)) /\ Valid(Prod(Y, Z)) /\ Valid(Prod(Prod(X, Y), Z))
    /\ tv' = V3("assoc", X, Y, Z, RMMul(RMMul(Mat(X), Mat(Y)), Mat(Z)))
 Next == /\ tv.op = "seed"
-        /\ LET X == tv.a[1] IN Unary(X) \/ Binary(X, tv.fam) \/ Ternary(X, tv.fam)
+        /\ LET X == tv.a[1] IN Unary(X) \/ Binary(X, tv.fam) \/ Ternary(X, tv.fam) \/ ProdHist(X, tv.fam)
 Spec == Init /\ [][Next]_tv
 
 (* ------------------------------ what TLC proves ------------------------------------- *)
